@@ -10,6 +10,7 @@ import (
 
 func init() {
 	register("C11", func(c *core.Ctx, tier string) {
+		corsAndContextEffects(c, "C11.11")
 		pollingEffects(c, "C11.10")
 		constructorChain(c, "C11.9")
 		c11Overlap(c)
